@@ -1014,10 +1014,25 @@ func (e *linEnv) getter(call *ast.CallExpr) (ast.Expr, *types.Info, map[string]s
 		return nil, nil, nil
 	}
 	d, di := e.decl(fn)
-	if d == nil || d.Body == nil || len(d.Body.List) != 1 {
+	if d == nil || d.Body == nil || len(d.Body.List) == 0 {
 		return nil, nil, nil
 	}
-	r, ok := d.Body.List[0].(*ast.ReturnStmt)
+	// before the return: only validations that end the program (if bad { log.Fatalf(…) }); what they establish is not used
+	for _, st := range d.Body.List[:len(d.Body.List)-1] {
+		is, ok := st.(*ast.IfStmt)
+		if !ok || is.Else != nil || is.Init != nil || len(is.Body.List) == 0 {
+			return nil, nil, nil
+		}
+		es, ok := is.Body.List[len(is.Body.List)-1].(*ast.ExprStmt)
+		if !ok {
+			return nil, nil, nil
+		}
+		fc, ok := es.X.(*ast.CallExpr)
+		if !ok || !linEndsProgram(di, fc) {
+			return nil, nil, nil
+		}
+	}
+	r, ok := d.Body.List[len(d.Body.List)-1].(*ast.ReturnStmt)
 	if !ok || len(r.Results) != 1 {
 		return nil, nil, nil
 	}
